@@ -5323,7 +5323,7 @@ class Device(utils.CompositeEventEmitter):
                     connection_handle=connection.handle
                 )
             )
-            return await read_feature_future
+            return await connection.cancel_on_disconnection(read_feature_future)
 
     async def get_remote_classic_features(
         self, connection: Connection
@@ -5377,7 +5377,9 @@ class Device(utils.CompositeEventEmitter):
                 )
             )
 
-            new_features, max_page_number = await read_feature_future
+            new_features, max_page_number = await connection.cancel_on_disconnection(
+                read_feature_future
+            )
             read_features |= new_features
             if not (read_features & hci.LmpFeatureMask.EXTENDED_FEATURES):
                 return read_features
@@ -5390,7 +5392,9 @@ class Device(utils.CompositeEventEmitter):
                         page_number=current_page_number,
                     )
                 )
-                new_features, max_page_number = await read_feature_future
+                new_features, max_page_number = (
+                    await connection.cancel_on_disconnection(read_feature_future)
+                )
                 read_features |= new_features << (current_page_number * 64)
                 current_page_number += 1
 
@@ -5418,7 +5422,7 @@ class Device(utils.CompositeEventEmitter):
                     connection_handle=connection.handle
                 )
             )
-            return await complete_future
+            return await connection.cancel_on_disconnection(complete_future)
 
     @utils.experimental('Only for testing.')
     async def set_default_cs_settings(
@@ -5507,7 +5511,7 @@ class Device(utils.CompositeEventEmitter):
                     reserved=0x00,
                 )
             )
-            return await complete_future
+            return await connection.cancel_on_disconnection(complete_future)
 
     @utils.experimental('Only for testing.')
     async def enable_cs_security(self, connection: Connection) -> None:
@@ -5530,7 +5534,7 @@ class Device(utils.CompositeEventEmitter):
                     connection_handle=connection.handle
                 )
             )
-            return await complete_future
+            return await connection.cancel_on_disconnection(complete_future)
 
     @utils.experimental('Only for testing.')
     async def set_cs_procedure_parameters(
@@ -5595,7 +5599,7 @@ class Device(utils.CompositeEventEmitter):
                     enable=enabled,
                 )
             )
-            return await complete_future
+            return await connection.cancel_on_disconnection(complete_future)
 
     @host_event_handler
     def on_flush(self):
